@@ -21,7 +21,11 @@ Checkable::Ptr CkSubject() { return l_Ck; }
 Host::Ptr CkHost() { return l_Host; }
 std::vector<std::string>& CkEvents() { return l_Ev; }
 
-static bool Mine(const Checkable::Ptr& c) { return l_Ck && (c == l_Ck); }
+// worker threads of ck_conc (ops_ckconc.cpp) record their events themselves: the handlers below stay on the main thread
+static thread_local bool tl_Quiet = false;
+void CkQuietThread(bool q) { tl_Quiet = q; }
+
+static bool Mine(const Checkable::Ptr& c) { return !tl_Quiet && l_Ck && (c == l_Ck); }
 
 static void InitOnce()
 {
